@@ -61,6 +61,9 @@ type Conn struct {
 	readHeaderBuf  [8]byte
 	readControlBuf [maxControlPayload]byte
 	msgReader      *msgReader
+	// peerClosed and peerCloseErr are protected by readMu.
+	peerClosed   bool
+	peerCloseErr error
 
 	// Write state.
 	msgWriter      *msgWriter
